@@ -277,12 +277,10 @@ def tag_recipes(draw):
         return draw(st.sampled_from([["int", 1], ["float", 1.0], ["bool", True], ["str", "1"], ["int", 0], ["float", 0.0], ["bool", False], ["str", "0"],
                                      ["str", "1.0"], ["str", "True"]]))
     if k == "rare":
-        k = draw(st.sampled_from(["unknown", "unknown", "none", "numtuple", "str", "qobj", "opobj", "str"]))
+        k = draw(st.sampled_from(["unknown", "unknown", "none", "numtuple", "str", "str"]))
     if k == "str" and draw(st.sampled_from([True, False, False])):
         # a raw string tag spelling the proto id of a qubit of this program (constants of different kinds share one table)
         return ["qid", draw(st.integers(0, 5))]
-    if k in ("qobj", "opobj"):
-        return [k, draw(st.integers(0, 5))]
     if k == "cal":
         return ["cal", draw(st.sampled_from(TOKENS))]
     if k == "dd":
@@ -362,15 +360,9 @@ def build_tag(r, ctx=None):
         return cg.TwoPulseFSimTag()
     if k == "str":
         return str(r[1])
-    if k in ("qid", "qobj"):
+    if k == "qid":
         qs = (ctx or {}).get("qubits") or []
-        if not qs:
-            return "0_0"
-        q = qs[int(r[1]) % len(qs)]
-        return proto_id_of(q) if k == "qid" else q
-    if k == "opobj":
-        ops = (ctx or {}).get("ops") or []
-        return ops[int(r[1]) % len(ops)] if ops else "op"
+        return proto_id_of(qs[int(r[1]) % len(qs)]) if qs else "0_0"
     if k == "int":
         return int(r[1])
     if k == "float":
@@ -750,12 +742,8 @@ def build_program(r):
     qubits = [build_qubit(q) for q in r["qubits"]]
     if not qubits:
         qubits = [cirq.GridQubit(0, 0)]
-    ctx = {"qubits": qubits, "ops": []}
-    first = [build_op(r, o, qubits, ctx) for o in r["ops"]]
-    # tags that are cirq objects equal to an operation of the pool (second pass, so every pool op can be referred to)
-    ctx["ops"] = [op.untagged.without_classical_controls().untagged for op in first
-                  if not isinstance(op.untagged.without_classical_controls().untagged, cirq.CircuitOperation)]
-    ops = [build_op(r, o, qubits, ctx) for o in r["ops"]] if any(t[0] == "opobj" for o in r["ops"] for t in o.get("tags", [])) else first
+    ctx = {"qubits": qubits}
+    ops = [build_op(r, o, qubits, ctx) for o in r["ops"]]
     subs = []
     cops = []
 
